@@ -5,7 +5,7 @@ from sim.props.base import Prop, gen_session
 class C01(Prop):
     id = "C01"
     level = "exploration"
-    RUNS = {"quick": 900, "thorough": 16000}
+    RUNS = {"quick": 1800, "thorough": 16000}
     BUDGET = {"quick": 80, "thorough": 900}
     ORACLES = ("O-ATTR", "O-CERT")
     RULE = ("seeded sessions (template model + decorations + 1-2 solves; transports cvxpy / stand-in MOSEK / fall-backs; "
